@@ -111,6 +111,13 @@ pub struct ModelSpec {
     /// number of nonlinear model parameters
     pub p: usize,
     pub terms: Vec<Term>,
+    /// units of the independent variable: the generators place x on [0, 10]·10^unit_exp and
+    /// scale every parameter by 10^(unit_exp·dimension of its role) — nanosecond lifetimes given in
+    /// seconds (-9) or time stamps in nanoseconds (+9). The basis matrix is the same up to
+    /// rounding; derivative columns, parameter magnitudes and the normal matrix of the
+    /// statistics change by many orders of magnitude. 0 = the catalogue's natural units.
+    #[serde(default)]
+    pub unit_exp: i8,
 }
 
 impl ModelSpec {
@@ -159,6 +166,37 @@ impl ModelSpec {
     }
     /// which parameter "role" each model parameter plays (for tame domains); a parameter
     /// shared between roles takes the first one found
+    /// 10^unit_exp
+    pub fn unit(&self) -> f64 {
+        10f64.powi(self.unit_exp as i32)
+    }
+    /// factor that converts a parameter value from the catalogue's natural units to this spec's units
+    pub fn unit_factors(&self) -> Vec<f64> {
+        self.roles().iter().map(|r| 10f64.powi(self.unit_exp as i32 * r.dimension())).collect()
+    }
+    /// every use of every parameter carries the same unit dimension and no basis function is a
+    /// bare power of x (whose column norm would scale with the unit): only such specs get units
+    pub fn unit_consistent(&self) -> bool {
+        let mut dims: Vec<Option<i32>> = vec![None; self.p];
+        for t in &self.terms {
+            if matches!(t.kind, Kind::X | Kind::X2) {
+                return false;
+            }
+            for (pos, &a) in t.args.iter().enumerate() {
+                let d = match (t.kind, pos) {
+                    (Kind::Exp, 0) | (Kind::Gauss, _) | (Kind::Lorentz, _) => 1,
+                    (Kind::Rate, 0) | (Kind::DampedCos, _) | (Kind::Sine, 0) => -1,
+                    _ => 0,
+                };
+                match dims[a] {
+                    None => dims[a] = Some(d),
+                    Some(e) if e != d => return false,
+                    _ => {}
+                }
+            }
+        }
+        true
+    }
     pub fn roles(&self) -> Vec<Role> {
         let mut roles = vec![Role::Generic; self.p];
         let mut set = vec![false; self.p];
@@ -196,6 +234,14 @@ pub enum Role {
 }
 
 impl Role {
+    /// exponent of the x-unit carried by a parameter of this role
+    pub fn dimension(self) -> i32 {
+        match self {
+            Role::Tau | Role::Center | Role::Width => 1,
+            Role::Rate | Role::Freq => -1,
+            Role::Phase | Role::Generic => 0,
+        }
+    }
     /// map u in [0,1) into the "tame" domain of the role: all catalogue functions and
     /// derivatives stay finite and well scaled for x in [0,10]
     pub fn tame(self, u: f64) -> f64 {
@@ -217,7 +263,7 @@ pub fn self_test() -> Result<usize, String> {
     for kind in Kind::PARAMETRIC {
         for xi in [0.0f64, 0.7, 3.1, 9.9] {
             for (u0, u1) in [(0.1, 0.8), (0.5, 0.5), (0.9, 0.2)] {
-                let spec = ModelSpec { p: kind.arity(), terms: vec![Term { kind, args: (0..kind.arity()).collect() }] };
+                let spec = ModelSpec { p: kind.arity(), terms: vec![Term { kind, args: (0..kind.arity()).collect() }], unit_exp: 0 };
                 let roles = spec.roles();
                 let a: Vec<f64> = roles.iter().zip([u0, u1]).map(|(r, u)| r.tame(u)).collect();
                 for pos in 0..kind.arity() {
